@@ -93,29 +93,29 @@ class Bundle:
                 me.log.append((who(), "consume", cost, r, world.t))
                 return r
 
-            def remaining(s):
-                r = super().remaining()
+            def remaining(s, *a, **kw):
+                r = super().remaining(*a, **kw)
                 me.log.append((who(), "remaining", r, world.t))
                 return r
 
         class SBreaker(CircuitBreaker):
-            def allow(s):
-                d = super().allow()
+            def allow(s, *a, **kw):
+                d = super().allow(*a, **kw)
                 me.log.append((who(), "br.allow", d.allowed, d.state.value, world.t))
                 return d
 
-            def record_success(s):
-                r = super().record_success()
+            def record_success(s, *a, **kw):
+                r = super().record_success(*a, **kw)
                 me.log.append((who(), "br.success", r, world.t))
                 return r
 
-            def record_failure(s, klass):
-                r = super().record_failure(klass)
+            def record_failure(s, klass, *a, **kw):
+                r = super().record_failure(klass, *a, **kw)
                 me.log.append((who(), "br.failure", getattr(klass, "name", repr(klass)), r, world.t))
                 return r
 
-            def record_cancel(s):
-                r = super().record_cancel()
+            def record_cancel(s, *a, **kw):
+                r = super().record_cancel(*a, **kw)
                 me.log.append((who(), "br.cancel", world.t))
                 return r
 
